@@ -48,6 +48,46 @@ TEXT = {
          "brackets are the pending evaluations (replay function); depth 0 and all brackets closed when evaluation ends with "
          "a value or exception; step commutes with forgetting the observer's state (transparency). Implementation streams "
          "are compared event by event with the model's and checked by an independent nesting monitor.", "5 C19"),
+ 'C06': ("Theorems: the key comparison used by ㄴ and by dictionaries decides equality of canonical keys (so it is an "
+         "equivalence that never relates different keys; −1 ≠ −2 whatever the host hashes), kinds differ, integers / lists / "
+         "functions compare by value / content / identity; dictionary lookup returns the value of the latest entry whose key "
+         "equals the probe (fold specification), misses find nothing, merge is construction from the concatenated entries. "
+         "Numeric equality across int / real / complex is carried by exact dyadic keys, validated by an independent exact-"
+         "rational oracle on an adversarial pool.", "5 C06"),
+ 'C07': ("Theorems: the I/O built-ins only construct action values (no world node), what executing read / print / return does "
+         "to the world (one line without newline, Nil at EOF consuming nothing, string + newline), ㄱㄹ runs its first action "
+         "then the continuation on its value or the handler on its exception, the do_IO loop executes the returned action "
+         "next. Monad laws and random bind trees are checked on all observables against a sequential oracle and the model; "
+         "left identity for I/O payloads is a recorded finding.", "5 C07"),
+ 'C11': ("Theorems: ㄷ / ㄱ on integers are the exact sum / product (fold lemmas), ㄴㄴ is truncated division and ㄴㅁ the "
+         "truncated remainder (proved equal to Int.tdiv / Int.tmod), n = q·d + r with |r| < |d| and r carrying the sign of n, "
+         "division by zero is the Division exception, exact powers, strict total order on integers, exact int/float "
+         "comparison through dyadic keys, Boolean ㄱ / ㄷ = all / any. Float ** and libm are opaque.", "5 C11"),
+ 'C12': ("Theorems: index accepted iff −len ≤ i < len; slice positions are s, s+step, … (< e, count maximal) with s, e "
+         "clamped as documented; zero step rejected; map keeps order; folds are the monadic left fold over the feed with the "
+         "documented argument order; join∘split = id for every non-empty separator (any element type); concatenation.", "5 C12"),
+ 'C14': ("Theorems about the byte-array file specification of the model: open keeps / empties / requires contents per mode, "
+         "append writes land at the end, written window read back, every other byte preserved, gaps zero-filled, truncate "
+         "length / prefix, and read / write / tell / seek / truncate / rejection lemmas for the handle operations. That a "
+         "real handle behaves as this specification is the correspondence on real files (all short histories per mode + "
+         "random histories).", "5 C14"),
+ 'C15': ("Theorems: a name matches a literal iff its stripped skeleton is one digit word of that value; a registered path is "
+         "returned without re-reading; a loaded module is delayed in the empty environment and registered; empty / multi-"
+         "expression / missing / ambiguous modules are language exceptions. Search on real scratch trees vs the model.", "5 C15"),
+ 'C16': ("Theorems for every width ≥ 1, order and signedness: encoded bytes are the value modulo 2^(8w) (two's complement), "
+         "big = reverse of little, decode∘encode = id, encodable iff in range. UTF-8/16/32 codecs are defined independently in "
+         "the model and validated against independent harness encoders (no round-trip theorem yet).", "5 C16"),
+ 'C17': ("Theorems: and / or / xor / not act bit by bit on infinite two's-complement strings for all integers and positions; "
+         "shifts = ×2ⁿ / floor ÷2ⁿ; for every binary64 value m·2^e: floor / ceiling inequalities (unique integer), trunc / away "
+         "by sign, round-to-nearest with ties to even.", "5 C17"),
+ 'C18': ("Theorems: ㅈㅅ(ㅁㅈ(n)) = n for every integer (decimal printing read back by the model's int parser); dictionary "
+         "entries are printed in an order independent of insertion order (permutation invariance for distinct printed keys). "
+         "Float printing (own shortest-round-trip algorithm) and cli.run are validated by correspondence (random bit "
+         "patterns; exit statuses).", "5 C18"),
+ 'C20': ("The model's front end is a function of (program, stdin, files, module registry): no hash seed, no interpreter "
+         "state — determinism by construction (thin theorems). The substantive check is the correspondence: sessions of "
+         "programs in one process (imports, stack-limit aborts, I/O) vs stand-alone outcomes vs the model, and fresh "
+         "processes under several PYTHONHASHSEED values.", "5 C20"),
  'C08': ("Theorems for all integers / all digit words: decode∘encode = id, characterisation of all spellings, encoder "
          "shortest; name tables regenerated from the source are canonical spellings so lookups depend on the value only.", "5 C08"),
  'C09': ("Theorems for all trees: parse∘unparse = id (spans included), stack effect and totality of every word with the "
